@@ -37,6 +37,12 @@ def classify_checker_error(txt):
     return "other"
 
 
+def regenerate(ctx):
+    """Props/C02.v also exports a theorem about the converter model, which depends on the generated tables."""
+    from harness import c01
+    c01.regenerate(ctx)
+
+
 class Collected:
     """Protos of accepted programs waiting for the verified checkers (evaluated in Coq in batches)."""
 
@@ -190,16 +196,17 @@ def run(ctx):
     feats = collections.Counter()
     coll = Collected()
     try:
-        for i in range(n_prog):
+        corpus = c01_gen.load_corpus()
+        for i in range(-len(corpus), n_prog):
             straight = (i % 10 == 0)
-            prog = c01_gen.gen_program(rng, i, straight=straight)
+            prog = corpus[i + len(corpus)] if i < 0 else c01_gen.gen_program(rng, i, straight=straight)
             src = c01_gen.to_source(prog)
-            mod, exc = c01_run.load(wd, f"c02_m{i}", src)
+            mod, exc = c01_run.load(wd, f"c02_m{i}".replace("-", "c"), src)
             key = c01_gen.shape_key(prog)
             ctx.case(("valid", key))
             for ft in prog["features"]:
                 feats[ft] += 1
-            if i < 2:
+            if 0 <= i < 2:
                 ctx.sample({"stream": "valid", "source": src})
             if exc is not None:
                 cls = c01_run.exc_class(exc)
@@ -213,11 +220,11 @@ def run(ctx):
                 stats["valid_accepted"] += 1
                 observe_accepted(ctx, mod, prog, src, "valid", None, coll, stats)
             # ---- near miss: one grammar-violating mutation of the same program
-            kind = c01_gen.NEAR_MISS_KINDS[(i + rng.randrange(3)) % len(c01_gen.NEAR_MISS_KINDS)]
+            kind = c01_gen.NEAR_MISS_KINDS[(i + len(corpus) + rng.randrange(3)) % len(c01_gen.NEAR_MISS_KINDS)]
             nsrc = c01_gen.mutate(prog, kind, rng)
-            mod2, exc2 = c01_run.load(wd, f"c02_n{i}", nsrc)
+            mod2, exc2 = c01_run.load(wd, f"c02_n{i}".replace("-", "c"), nsrc)
             ctx.case(("near-miss", kind, key.split("/")[0][:12]))
-            if i < 2:
+            if 0 <= i < 2:
                 ctx.sample({"stream": "near-miss", "kind": kind, "source": nsrc})
             if exc2 is None:
                 nm_outcome[kind + " -> accepted"] += 1
